@@ -98,7 +98,7 @@ public:
     explicit DomEngine(const std::string& p) : prop(p) {}
     std::string property() const override { return prop; }
     std::string rule() const override { if (prop == "C14") return "one run = a seeded interleaving of tree mutations (the C13 operation set, on 1-2 documents) with the creation, stepping and querying of up to 6 NodeIterators, 6 TreeWalkers (whatToShow masks, accept / skip / reject filters), 6 live getElementsByTagName lists, getElementById lookups with ID attributes, and 5 Ranges (boundary setters with arbitrary nodes and offsets, toString, compareBoundaryPoints, clone / extract / delete contents, insertNode, surroundContents, cloneRange, detach); every view operation is executed on the real object and on its reference model over RefDOM and the answers compared; after EVERY step the boundary points, collapsed flag and common ancestor of all ranges and the current node of all walkers are compared, and the C13 tree comparison runs. distinct = plan hash; non-trivial = at least one view operation was executed after at least one successful tree mutation";
-        return "one run = a seeded history of DOM Core operations (create*, insertBefore / appendChild / removeChild / replaceChild with operands drawn from ALL live nodes of 1-2 documents and detached subtrees - so forbidden combinations occur naturally -, cloneNode, importNode, adoptNode, attribute set/remove by name and by node, character-data edits with arbitrary offsets, splitText, normalize, setTextContent, release) executed on real xerces-c documents and on the RefDOM reference model; after EVERY step the exception behaviour must agree (a forbidden operation must raise DOMException with an allowed code and leave the tree unchanged) and a parallel walk through public getters must find the real tree structurally consistent and equal to the reference. distinct = plan hash; non-trivial = at least one forbidden operation was attempted and at least one structural mutation succeeded"; }
+        return "one run = a seeded history of DOM Core operations (create*, insertBefore / appendChild / removeChild / replaceChild with operands drawn from ALL live nodes of 1-2 documents and detached subtrees - so forbidden combinations occur naturally -, cloneNode, importNode, adoptNode, attribute set/remove by name and by node, character-data edits with arbitrary offsets, splitText, normalize, setTextContent, release) executed on real xerces-c documents and on the RefDOM reference model; after EVERY step the exception behaviour must agree (a forbidden operation must raise DOMException with an allowed code and leave the tree unchanged) and a parallel walk through public getters must find the real tree structurally consistent and equal to the reference. The first runs of a batch are not sampled but enumerated: every history of length 1 and 2 (thorough: also a slice of length 3) over four binary structural operations with all 81 operand pairs and nine unary operations with all 9 operands, on a fixed world of 9 nodes (document, element tree with text, detached element, fragment with child, detached text). distinct = plan hash; non-trivial = at least one forbidden operation was attempted and at least one structural mutation succeeded"; }
     Json describe() const override {
         Json d = Json::obj(); Json real = Json::arr(); for (auto s : { "DOMDocumentImpl, DOMParentNode, DOMChildNode, DOMNodeImpl, DOMElementImpl/NSImpl, DOMAttrImpl/NSImpl, DOMAttrMapImpl, DOMCharacterDataImpl, DOMTextImpl, DOMCDATASectionImpl, DOMDocumentFragmentImpl, DOMNodeIDMap, DOMStringPool" }) real.push(s);
         Json stub = Json::arr(); stub.push("none (the DOM has no I/O); the reference model RefDOM is the oracle");
@@ -106,9 +106,39 @@ public:
         Json as = Json::arr(); as.push("RefDOM encodes DOM Level 2/3 Core tree semantics; where the specification leaves the exception precedence open the model accepts any of the codes of the violated preconditions; NOT_SUPPORTED_ERR is accepted as a refusal only for importing / adopting Document and DocumentType nodes"); d.set("assumptions", as); return d;
     }
     void globalInit() override { if (!inited) { XMLPlatformUtils::Initialize(XMLUni::fgXercescDefaultLocale, 0, 0, new CachingGlobalMM()); inited = true; } }
-    uint64_t defaultRuns(const std::string& tier) const override { if (prop == "C14") return tier == "quick" ? 300000 : 3000000; return tier == "quick" ? 300000 : 4000000; }
+    uint64_t defaultRuns(const std::string& tier) const override { if (prop == "C14") return tier == "quick" ? 300000 : 3000000; return enumCount(tier) + (tier == "quick" ? 200000 : 4000000); }      // C13: the enumerated short histories first, then seeded ones
+
+    // ---- exhaustive part (C13): every history of length 1 and 2 (thorough: also a slice of length 3) of structural operations with
+    // ALL operand combinations over a fixed small world: doc#0, root#1[a#2[text#3], b#4], detached element#5, fragment#6[d#7], detached text#8
+    static Json mkop(const char* k, long long a, long long b, long long c, int s, int t, int n, int m, bool f) { Json op = Json::obj(); op.set("k", k); op.set("a", a); op.set("b", b); op.set("c", c); op.set("s", s); op.set("t", t); op.set("n", n); op.set("m", m); op.set("f", f); return op; }
+    static void prelude(Json& ops) {
+        ops.push(mkop("createElement", 0, 0, 0, 0, 0, 0, 0, false)); ops.push(mkop("createText", 0, 0, 0, 0, 0, 0, 0, false)); ops.push(mkop("createElement", 0, 0, 0, 1, 0, 0, 0, false)); ops.push(mkop("createElement", 0, 0, 0, 2, 0, 0, 0, false));
+        ops.push(mkop("createFragment", 0, 0, 0, 0, 0, 0, 0, false)); ops.push(mkop("createElement", 0, 0, 0, 3, 0, 0, 0, false)); ops.push(mkop("createText", 0, 0, 0, 0, 1, 0, 0, false));
+        ops.push(mkop("appendChild", 1, 2, 0, 0, 0, 0, 0, false)); ops.push(mkop("appendChild", 2, 3, 0, 0, 0, 0, 0, false)); ops.push(mkop("appendChild", 1, 4, 0, 0, 0, 0, 0, false)); ops.push(mkop("appendChild", 6, 7, 0, 0, 0, 0, 0, false));
+    }
+    enum { ENUM_NODES = 9, ENUM_BIN = 4 * ENUM_NODES * ENUM_NODES, ENUM_UN = 9 * ENUM_NODES, ENUM_OPS = ENUM_BIN + ENUM_UN };
+    // the e-th operation of the alphabet: four binary structural operations x 81 operand pairs, nine unary operations x 9 operands
+    static Json enumOp(uint64_t e) {
+        if (e < ENUM_BIN) { uint64_t kind = e / (ENUM_NODES * ENUM_NODES), ab = e % (ENUM_NODES * ENUM_NODES); long long a = (long long)(ab / ENUM_NODES), b = (long long)(ab % ENUM_NODES);
+            switch (kind) { case 0: return mkop("appendChild", a, b, 0, 0, 0, 0, 0, false); case 1: return mkop("insertBefore", a, b, 1, 0, 0, 0, 0, true);      // reference child: a genuine child of A (or root#1, no child of A, when A is childless)
+                case 2: return mkop("removeChild", a, b, 0, 0, 0, 0, 0, false); default: return mkop("replaceChild", a, b, 0, 0, 0, 0, 0, true); } }      // replaces the first child of A (or doc#0, no child, when A is childless)
+        e -= ENUM_BIN; uint64_t kind = e / ENUM_NODES; long long a = (long long)(e % ENUM_NODES);
+        switch (kind) { case 0: return mkop("cloneNode", a, 0, 0, 0, 0, 0, 0, true); case 1: return mkop("cloneNode", a, 0, 0, 0, 0, 0, 0, false); case 2: return mkop("normalize", a, 0, 0, 0, 0, 0, 0, false); case 3: return mkop("splitText", a, 0, 0, 0, 0, 1, 0, false);
+            case 4: return mkop("adoptNode", a, 0, 0, 0, 0, 0, 0, false); case 5: return mkop("renameNode", a, 0, 0, 2, 0, 0, 0, false); case 6: return mkop("setTextContent", a, 0, 0, 0, 0, 0, 0, false); case 7: return mkop("importNode", a, 0, 0, 0, 0, 0, 0, true); default: return mkop("renameNode", a, 0, 0, 0, 0, 1, 0, true); }
+    }
+    static uint64_t enumCount(const std::string& tier) { uint64_t n1 = ENUM_OPS, n2 = (uint64_t)ENUM_BIN * ENUM_BIN + 2ull * ENUM_BIN * ENUM_UN; return tier == "quick" ? n1 + n2 : n1 + n2 + (uint64_t)ENUM_BIN * ENUM_BIN * 36; }
+    static Json enumPlan(uint64_t i, const std::string& tier) {
+        Json plan = Json::obj(); plan.set("mode", "C13"); plan.set("docs", 1); plan.set("enumerated", true); Json ops = Json::arr(); prelude(ops);
+        if (i < ENUM_OPS) { ops.push(enumOp(i)); plan.set("ops", ops); return plan; } i -= ENUM_OPS;
+        uint64_t bb = (uint64_t)ENUM_BIN * ENUM_BIN; if (i < bb) { ops.push(enumOp(i / ENUM_BIN)); ops.push(enumOp(i % ENUM_BIN)); plan.set("ops", ops); return plan; } i -= bb;
+        uint64_t bu = (uint64_t)ENUM_BIN * ENUM_UN; if (i < bu) { ops.push(enumOp(i / ENUM_UN)); ops.push(enumOp(ENUM_BIN + i % ENUM_UN)); plan.set("ops", ops); return plan; } i -= bu;
+        if (i < bu) { ops.push(enumOp(ENUM_BIN + i / ENUM_BIN)); ops.push(enumOp(i % ENUM_BIN)); plan.set("ops", ops); return plan; } i -= bu;
+        // thorough: length 3 = any two binary operations followed by one of 36 moves of the nodes 1-4 among each other / into the fragment (appendChild a in {1,2,4,6}, b in 1..8 \ ...)
+        (void)tier; uint64_t third = i % 36; i /= 36; ops.push(enumOp(i / ENUM_BIN)); ops.push(enumOp(i % ENUM_BIN)); static const long long parents[] = { 1, 2, 4, 6 }; ops.push(mkop("appendChild", parents[third / 9], (long long)(third % 9), 0, 0, 0, 0, 0, false)); plan.set("ops", ops); return plan;
+    }
 
     Json generate(uint64_t seed, uint64_t index, const std::string& tier) override {
+        if (prop == "C13" && index < enumCount(tier)) return enumPlan(index, tier);
         Rng r = runRng(seed, index, "workload"); Json plan = Json::obj(); plan.set("mode", prop);
         plan.set("docs", 1 + (int)r.below(2));
         int n = tier == "quick" ? r.range(3, 40) : (r.chance(1, 20) ? r.range(100, 800) : r.range(3, 80));
